@@ -10,3 +10,11 @@ let () =
       else if z = "0" then Viol "python zlib does not inflate destination++tail to the written message after a Flush/Close that reported success"
       else Pass (refused = "1")
     | _ -> Diff "malformed line")
+
+let () =
+  (* C14A: the answer of Negotiate does not live in the offer's memory *)
+  register "C14A" (fun i o -> match o with
+    | [_; before; after] ->
+      if before <> after then Viol "the answer of Negotiate changed when the memory of the client's offer was reused (it aliases the request)"
+      else Pass (before <> "-")
+    | _ -> Diff "malformed line")
